@@ -438,6 +438,7 @@ func (x *Exec) loopEntry(st *State, li *LoopInfo) {
 	st.loopPre[li.Header.Index] = st.clone()
 	x.havocLoop(st, li)
 	st.inLoop[li.Header.Index] = true
+	x.assumeRangeIndex(st, li)
 	if li.Spec == nil {
 		x.note(fmt.Sprintf("unannotated loop (havoc, invariant true): %s loop %d %q", x.funcName(), li.K, li.Sig))
 		return
@@ -909,4 +910,43 @@ func coerce(v Value, t types.Type) Value {
 		return zeroValue(t)
 	}
 	panic(fmt.Sprintf("cannot coerce value of type %v (%d leaves) to %v", v.T, len(v.L), t))
+}
+
+// assumeRangeIndex adds the fact the compiler guarantees for `for i, v := range s` over a slice, array or
+// string: at the loop head the hidden index is -1 (nothing done yet) or an index below the length that was
+// taken before the loop. (SSA shape: idx = *rangeindex; next = idx + 1; *rangeindex = next; if next < n.)
+func (x *Exec) assumeRangeIndex(st *State, li *LoopInfo) {
+	var idxAlloc *ssa.Alloc
+	var next ssa.Value
+	for _, ins := range li.Header.Instrs {
+		if s, ok := ins.(*ssa.Store); ok {
+			if a, ok := s.Addr.(*ssa.Alloc); ok && a.Comment == "rangeindex" {
+				idxAlloc, next = a, s.Val
+			}
+		}
+	}
+	if idxAlloc == nil {
+		return
+	}
+	cell, ok := st.cellOf[idxAlloc]
+	if !ok {
+		return
+	}
+	cv, ok := st.cells[cell]
+	if !ok || len(cv.L) != 1 {
+		return
+	}
+	for _, ins := range li.Header.Instrs {
+		b, ok := ins.(*ssa.BinOp)
+		if !ok || b.Op != token.LSS || b.X != next {
+			continue
+		}
+		n, ok := st.regs[b.Y]
+		if !ok || len(n.L) != 1 {
+			return
+		}
+		idx := cv.L[0]
+		st.assume(mkOr(mkEq(idx, mkInt(-1)), mkAnd(mkCmp("<=", tZero, idx), mkCmp("<", idx, n.L[0]))))
+		return
+	}
 }
